@@ -5,6 +5,9 @@ import "fmt"
 // Chan is the scheduled replacement of a buffered Go channel.
 type Chan[T any] struct {
 	buf    []T
+	toks   []*int32 // race build: one synchronisation token per buffered element (a channel with
+	// several senders must hand each receiver the clock of the sender of *its* element: a plain
+	// release on the channel overwrites the clock of an earlier sender)
 	capN   int
 	closed bool
 }
@@ -35,7 +38,11 @@ func (c *Chan[T]) doSend(v T) {
 		panic("send on closed channel")
 	}
 	c.buf = append(c.buf, v)
-	RaceRelease(c)
+	if RaceEnabled {
+		tok := new(int32)
+		c.toks = append(c.toks, tok)
+		RaceRelease(tok)
+	}
 }
 
 //go:norace
@@ -43,10 +50,15 @@ func (c *Chan[T]) doRecv() (v T, ok bool) {
 	if len(c.buf) > 0 {
 		v = c.buf[0]
 		c.buf = c.buf[1:]
-		RaceAcquire(c)
+		if RaceEnabled && len(c.toks) > 0 {
+			if c.toks[0] != nil {
+				RaceAcquire(c.toks[0])
+			}
+			c.toks = c.toks[1:]
+		}
 		return v, true
 	}
-	RaceAcquire(c)
+	RaceAcquire(c) // closed: synchronises with the close
 	return v, false
 }
 
@@ -93,6 +105,9 @@ func TrySend[T any](c *Chan[T], v T) bool {
 		return false
 	}
 	c.buf = append(c.buf, v)
+	if RaceEnabled {
+		c.toks = append(c.toks, nil) // a timer is not a thread: nothing to synchronise with
+	}
 	return true
 }
 
